@@ -30,9 +30,10 @@ class ListPlanning(Planning):
     (which cannot be imported on this image): every task gets est/eft and a machine id; the
     task->machine map is an input (self.choice[(obs name, node id)] = machine index)."""
 
-    def __init__(self, algorithm='list', delay_model=None, choice=None):
+    def __init__(self, algorithm='list', delay_model=None, choice=None, abs_est=None):
         super().__init__(algorithm, delay_model)
         self.choice = choice or {}
+        self.abs_est = abs_est      # None: workflow est as Planning._calc_workflow_est; int: clock + duration + slack
 
     def __str__(self):
         return 'ListPlanning'
@@ -43,6 +44,8 @@ class ListPlanning(Planning):
     def generate_plan(self, clock, cluster, buffer, observation, max_ingest):
         graph = read_graph(observation.workflow)
         est_wf = self._calc_workflow_est(observation, buffer)
+        if self.abs_est is not None:
+            est_wf = int(clock + observation.duration + self.abs_est)
         machines = cluster.machines
         free_at = {m.id: 0 for m in machines}
         fin, alloc, mapping, tasks = {}, {}, {}, []
@@ -109,8 +112,8 @@ class DelayedBatchPlanning(BatchPlanning):
 
 
 class DelayedListPlanning(ListPlanning):
-    def __init__(self, algorithm='list', delay_model=None, choice=None, delays=None):
-        super().__init__(algorithm, delay_model, choice)
+    def __init__(self, algorithm='list', delay_model=None, choice=None, delays=None, abs_est=None):
+        super().__init__(algorithm, delay_model, choice, abs_est)
         self.delays = delays or {}
 
     def generate_plan(self, clock, cluster, buffer, observation, max_ingest):
